@@ -61,6 +61,13 @@ def _flatten(a):
     return out
   if z3.is_implies(a) and z3.is_true(a.arg(0)):
     return _flatten(a.arg(1))
+  if z3.is_not(a) and z3.is_or(a.arg(0)):
+    out = []
+    for c in a.arg(0).children():
+      out.extend(_flatten(z3.Not(c)))
+    return out
+  if z3.is_not(a) and z3.is_not(a.arg(0)):
+    return _flatten(a.arg(0).arg(0))
   return [a]
 
 
@@ -373,16 +380,56 @@ def abstract_except(terms, keep_names, min_size=24):
   return [rec(t) for t in terms]
 
 
-def integer_projection(assumptions):
-  """drop every hypothesis conjunct that mentions a Real-sorted term (floating-point path
-  conditions). Weakening hypotheses is sound for validity; used for index obligations, whose
-  index terms are integers."""
-  cache = {}
+def integer_projection(assumptions, state=None):
+  """Weaken the hypotheses to their integer / boolean structure: every atom (comparison, equality, boolean
+  application) that mentions a Real-sorted term becomes a fresh unconstrained boolean (the same atom always the same
+  boolean), and every Int-sorted term computed from reals (int(x)) a fresh integer. Floating-point path conditions
+  thus stay in place as opaque switches, so the integer guards combined with them (`if f <= 0.0: return` followed by
+  `if efcid >= njmax: return`) keep their meaning. A generalisation of the hypotheses: sound for validity; used for
+  index obligations, whose index terms are integers."""
+  if state is None:
+    state = {}
+  rc = state.setdefault("rc", {})
+  memo = state.setdefault("memo", {})
+  # (terms whose ids are memoised are kept alive by the caller's assumption lists for the lifetime of `state`)
+
+  def ab(t):
+    k = t.get_id()
+    if k in memo:
+      return memo[k]
+    if not _mentions_real(t, rc):
+      memo[k] = t
+      return t
+    r = None
+    if z3.is_quantifier(t):
+      r = z3.Bool(f"ratom!q{k}")
+    elif z3.is_bool(t):
+      if z3.is_and(t) or z3.is_or(t) or z3.is_not(t) or z3.is_implies(t) or (z3.is_app(t) and t.decl().kind() in (z3.Z3_OP_ITE, z3.Z3_OP_XOR, z3.Z3_OP_IFF)) or (z3.is_eq(t) and z3.is_bool(t.arg(0))):
+        ch = [ab(c) for c in t.children()]
+        r = t.decl()(*ch)
+      else:
+        r = z3.Bool(f"ratom!{k}")
+    elif z3.is_int(t):
+      if z3.is_app(t) and t.decl().kind() == z3.Z3_OP_ITE:
+        r = z3.If(ab(t.arg(0)), ab(t.arg(1)), ab(t.arg(2)))
+      elif z3.is_app(t) and t.decl().kind() in (z3.Z3_OP_ADD, z3.Z3_OP_SUB, z3.Z3_OP_MUL, z3.Z3_OP_UMINUS, z3.Z3_OP_IDIV, z3.Z3_OP_MOD):
+        r = t.decl()(*[ab(c) for c in t.children()])
+      else:
+        r = z3.Int(f"rint!{k}")
+    else:
+      r = t  # a Real term outside any atom cannot occur at hypothesis level
+    memo[k] = r
+    return r
+
   out = []
   for a in assumptions:
     for c in _flatten(a):
-      if not _mentions_real(c, cache):
-        out.append(c)
+      try:
+        c2 = ab(c)
+      except z3.Z3Exception:
+        continue
+      if z3.is_bool(c2) and not (z3.is_const(c2) and c2.decl().name().startswith("ratom!")):
+        out.append(c2)
   return out
 
 
